@@ -1030,3 +1030,61 @@ func checkPublished(x *Exec, r *Rig, p concParams, recs [][]opRec, nAtomicSetup 
 		}
 	}
 }
+
+// checkVolunteered (C10, concurrent part): "BulkGet caches additional keys the loader volunteered" and "a failed load
+// leaves the cache unchanged". A key k that a successful bulk loader call volunteered (k in its result, not among the keys
+// it was asked for) must be what the cache holds for k at quiescence, unless something else in the run may legitimately
+// decide k's final value: an explicit write/invalidation of k, another loader call that produced a value for k, or a
+// not-found answer for k (whether a not-found Load removes an entry written meanwhile is implementation-defined).
+// Loads of k that merely fail (error, panic) change nothing. Only for caches that remove nothing on their own.
+func checkVolunteered(x *Exec, r *Rig, p concParams, recs [][]opRec, contents map[int]int) {
+	if p.Cfg.MaxSize > 0 || p.Cfg.MaxWeight > 0 || p.Cfg.Expiry != "" {
+		return
+	}
+	written := map[int]bool{}
+	for _, rs := range recs {
+		for _, rc := range rs {
+			f := opFields(rc.op)
+			switch f[0] {
+			case "set", "sia", "cw", "ci", "cia", "cipw", "cipi", "inv", "cc", "cp", "ciac", "cipc":
+				written[atoi(f[1])] = true
+			case "invall":
+				return
+			}
+		}
+	}
+	for i, lc := range r.Loads {
+		if lc.Err != "" || (lc.Kind != "bulkload" && lc.Kind != "bulkreload") {
+			continue
+		}
+		for k, v := range lc.Out {
+			if containsKey(lc.Keys, k) || written[k] {
+				continue
+			}
+			decided := false
+			for j, o := range r.Loads {
+				if j == i {
+					continue
+				}
+				if _, produced := o.Out[k]; produced && o.Err == "" {
+					decided = true
+				}
+				if containsKey(o.Keys, k) && (o.Err == "notfound" || o.Err == "" && !hasKey(o.Out, k)) {
+					decided = true
+				}
+			}
+			if decided {
+				x.Count("volunteered-not-judged")
+				continue
+			}
+			x.Count("volunteered-judged")
+			if cv, ok := contents[k]; !ok {
+				x.Fail("volunteered-not-cached", "BulkGet@"+p.Label, "a bulk loader call for %v volunteered %d=%d and nothing else wrote, invalidated or successfully loaded key %d (other loads of it only failed), yet the cache does not hold the key at quiescence", lc.Keys, k, v, k)
+			} else if cv != v {
+				x.Fail("volunteered-not-cached", "BulkGet@"+p.Label, "a bulk loader call for %v volunteered %d=%d and nothing else wrote or successfully loaded key %d, yet the cache holds %d", lc.Keys, k, v, k, cv)
+			}
+		}
+	}
+}
+
+func hasKey(m map[int]int, k int) bool { _, ok := m[k]; return ok }
